@@ -5,7 +5,7 @@ import os
 
 from hypothesis import strategies as st
 
-from .. import refmodel as rm
+from .. import approute, refmodel as rm
 from .. import simnet
 from ..runner import Obs, exc_bucket, hyp_run
 
@@ -269,6 +269,8 @@ def run_tunnel(case):
             try:
                 if case.get("api") == "create_connection":
                     ws = websocket.create_connection(url, timeout=4, **kw)
+                elif case.get("api") == "app":
+                    ws = approute.connect(websocket, url, kw)  # the proxy options are run_forever arguments here
                 else:
                     ws = websocket.WebSocket()
                     ws.connect(url, **kw)
@@ -386,6 +388,8 @@ def run_redirect(case):
             try:
                 if case.get("api") == "create_connection":
                     websocket.create_connection(f"ws://{h1}:9100/first", timeout=4, **kw)
+                elif case.get("api") == "app":
+                    approute.connect(websocket, f"ws://{h1}:9100/first", kw)
                 else:
                     websocket.WebSocket().connect(f"ws://{h1}:9100/first", **kw)
             except Exception as e:  # noqa: BLE001
@@ -431,7 +435,7 @@ def tunnels(draw):
         "np_src": draw(st.sampled_from(["opt", "env"])), "status": draw(st.sampled_from([200, 200, 200, 201, 204, 301, 403, 407, 500, 502, 100, 199])),
         "auth": draw(st.sampled_from([None, None, ["user", "pass"], ["u", "p:w"], ["name", "secret word"], ["u" * 30, "p" * 27], ["u" * 30, "p" * 28],
                                       ["a-rather-long-user-name@corp.example", "an even longer pass phrase with blanks 0123456789 0123456789 0123456789"]])),
-        "api": draw(st.sampled_from(["connect", "create_connection"])), "lower": draw(st.booleans()), "envport": draw(st.booleans()),
+        "api": draw(st.sampled_from(["connect", "create_connection", "app"])), "lower": draw(st.booleans()), "envport": draw(st.booleans()),
         "phdr": draw(st.booleans()), "reply_cut": draw(st.sampled_from([None, None, 1, 2, 3, 4, 5, 10, 20])),
     }
     if draw(st.integers(0, 3)) == 0:
